@@ -83,7 +83,7 @@ class Kernel:
             extract.annotate_files(dumps[key])
         self.index(objs)
         fns = extract.find_functions(objs, self.fn_name, cls=self.cls, targs=self.targs, sig=self.sig,
-                                     want_pattern=self.want_pattern)
+                                     want_pattern=self.want_pattern, plain_only=getattr(self, "plain_only", False))
         # de-duplicate by id
         seen = {}
         for f in fns:
@@ -312,6 +312,9 @@ class Kernel:
     methods = {}
     functions = {}
     ctors = {}
+    # `inline` names helpers by name only; with this flag a model object that has its own method of that name keeps it
+    # (KeySlotStore::slot_capacity() vs key_storage.slot_capacity())
+    model_methods_first = False
 
     def method_handler(self, obj, name, node):
         cls = getattr(obj, "cls", None)
@@ -321,7 +324,8 @@ class Kernel:
         if h is not None:
             return h
         # same-class helper executed in place
-        if name in self.inline and isinstance(obj, Obj):
+        if name in self.inline and isinstance(obj, Obj) and not (
+                self.model_methods_first and getattr(obj, "m_" + sanitize(name), None) is not None):
             rid = None
             cal = kids(node)[0]
             while cal["kind"] in ("ImplicitCastExpr", "ParenExpr"):
